@@ -135,14 +135,29 @@ def lean_audit(pid, modules, names):
     return res, out
 
 
+def harness_dir():
+    """the Go harness module that is built and run. Its go.mod replaces the library by /repo; when
+    VERIF_REPO points elsewhere (scratch clones used by sweeps and fix preparation) a copy of the
+    module with the replace rewritten is used instead."""
+    if os.path.realpath(REPO) == "/repo":
+        return HARN
+    alt = os.path.join(WORK, "harness-alt")
+    subprocess.run(["rsync", "-a", "--delete", HARN + "/", alt + "/"], check=True)
+    gm = os.path.join(alt, "go.mod")
+    txt = re.sub(r"(github.com/henrylee2cn/erpc/v6\s*=>\s*)\S+", lambda m: m.group(1) + REPO, open(gm).read())
+    open(gm, "w").write(txt)
+    return alt
+
+
 def go_build():
     os.makedirs(os.path.join(WORK, "bin"), exist_ok=True)
-    gosum_src, gosum_dst = os.path.join(REPO, "go.sum"), os.path.join(HARN, "go.sum")
     with Lock("gobuild"):
+        hdir = harness_dir()
+        gosum_src, gosum_dst = os.path.join(REPO, "go.sum"), os.path.join(hdir, "go.sum")
         if os.path.exists(gosum_src) and (not os.path.exists(gosum_dst)):
             open(gosum_dst, "w").write(open(gosum_src).read())
         rc, out, dt = sh(["go", "build", "-tags", "verif", "-o", os.path.join(WORK, "bin", "conform"), "./cmd/conform"],
-                         cwd=HARN, env=GOENV, timeout=1800)
+                         cwd=hdir, env=GOENV, timeout=1800)
     return rc == 0, out, dt
 
 
@@ -179,7 +194,7 @@ def run_cases(pid, cfg, tag, seed, tier, replay_cases=None, timeout=3000):
         if os.path.exists(f):
             os.remove(f)
     try:
-        rc, out, dt = sh(cmd, cwd=HARN, env=env, timeout=timeout)
+        rc, out, dt = sh(cmd, cwd=(HARN if os.path.realpath(REPO) == "/repo" else os.path.join(WORK, "harness-alt")), env=env, timeout=timeout)
     except subprocess.TimeoutExpired:
         rc, out, dt = 124, "harness timed out after %ds" % timeout, timeout
     res = {"rc": rc, "log": out[-20000:], "wall": dt, "cases": [], "obs": [], "model": [], "stats": {}}
